@@ -9,6 +9,7 @@ import (
 
 	sdk "github.com/cosmos/cosmos-sdk/types"
 
+	base "github.com/regen-network/regen-ledger/x/ecocredit/v3/base/types/v1"
 	basket "github.com/regen-network/regen-ledger/x/ecocredit/v3/basket/types/v1"
 
 	"verif/harness/chain"
@@ -44,6 +45,7 @@ func (c *Checker) checkC05State() {
 	}
 	c.hit("C05")
 	exactOK := true
+	explained := false // a deficit that equals the basket tokens burned as creation fees (reported separately)
 	for _, id := range sortedU64(v.Baskets) {
 		b := v.Baskets[id]
 		prec := 6
@@ -52,7 +54,9 @@ func (c *Checker) checkC05State() {
 		}
 		want := mul(c.basketTotal(v, id), ratInt(pow10(prec)))
 		got := ratInt(v.SupplyOf(b.Denom))
-		if want.Cmp(got) != 0 {
+		if burned := c.feeBurned[b.Denom]; burned != nil && sub(want, got).Cmp(ratInt(burned)) == 0 {
+			explained = true
+		} else if want.Cmp(got) != 0 {
 			exactOK = false
 			c.report("C05", "basket-supply!=credits", fmt.Sprintf("basket %s: bank supply %s but credits held x 10^%d = %s", b.Denom, ratStr(got), prec, ratStr(want)),
 				map[string]interface{}{"BasketBalance": c.basketRows(v, id)})
@@ -64,6 +68,9 @@ func (c *Checker) checkC05State() {
 	msg, broken := brokenInv(c.it, "ecocredit/basket-supply")
 	was := c.basketInvBroken
 	c.basketInvBroken = broken
+	if explained && exactOK {
+		return // the invariant necessarily reports the fee-burn deficit; that finding has its own key
+	}
 	if broken && !was { // report the step at which the invariant starts to fail
 		key := "basket-invariant-broken"
 		desc := "registered invariant ecocredit/basket-supply reports: " + clip(msg, 400)
@@ -77,6 +84,42 @@ func (c *Checker) checkC05State() {
 		}
 		c.report("C05", key, desc, map[string]interface{}{"BasketBalance": rows, "supply": v.S.Supply})
 	}
+}
+
+// noteFeeBurn recognises a class/basket creation fee that is charged (and burned) in the denom of an
+// existing basket: the burned tokens leave the bank supply while the credits stay in the basket.
+func (c *Checker) noteFeeBurn(msg sdk.Msg, ok bool) {
+	if !ok || msg == nil {
+		return
+	}
+	var fee *CoinV
+	key, what := "", ""
+	switch msg.(type) {
+	case *basket.MsgCreate:
+		fee, key, what = c.pre.BasketFee, "basket-fee-burns-basket-tokens", "basket creation fee"
+	case *base.MsgCreateClass:
+		fee, key, what = c.pre.ClassFee, "class-fee-burns-basket-tokens", "class creation fee"
+	default:
+		return
+	}
+	if fee == nil || fee.Amount == nil || fee.Amount.Sign() <= 0 {
+		return
+	}
+	bk := c.pre.BasketByDenom[fee.Denom]
+	if bk == nil {
+		return
+	}
+	burned := new(big.Int).Sub(c.pre.SupplyOf(fee.Denom), c.post.SupplyOf(fee.Denom))
+	if burned.Sign() <= 0 {
+		return
+	}
+	if c.feeBurned[fee.Denom] == nil {
+		c.feeBurned[fee.Denom] = new(big.Int)
+	}
+	c.feeBurned[fee.Denom].Add(c.feeBurned[fee.Denom], burned)
+	c.report("C05", key, fmt.Sprintf("the %s is set in basket denom %s; paying it burned %s basket tokens, so the bank supply (%s) is now below credits held x 10^precision by the burned amount (total %s)",
+		what, fee.Denom, burned, c.post.SupplyOf(fee.Denom), c.feeBurned[fee.Denom]),
+		map[string]interface{}{"fee": map[string]string{"denom": fee.Denom, "amount": fee.Raw}, "BasketBalance": c.basketRows(c.post, bk.ID), "supply_before": c.pre.SupplyOf(fee.Denom).String(), "supply_after": c.post.SupplyOf(fee.Denom).String()})
 }
 
 func (c *Checker) checkC05Msg(msg sdk.Msg, ok bool) {
